@@ -530,6 +530,10 @@ func (t *thread) checkHashTypeEncoding(shf sighash.Flag) error {
 		if sigHashType < sighash.All || sigHashType > sighash.Single {
 			return errs.NewError(errs.ErrInvalidSigHashType, "invalid hash type 0x%x", shf)
 		}
+		// Once the fork id digest is enabled, every signature must use it.
+		if t.hasFlag(scriptflag.EnableSighashForkID) && !shf.Has(sighash.ForkID) {
+			return errs.NewError(errs.ErrIllegalForkID, "fork id sighash not set with flag")
+		}
 		return nil
 	}
 
@@ -539,9 +543,6 @@ func (t *thread) checkHashTypeEncoding(shf sighash.Flag) error {
 
 	if !t.hasFlag(scriptflag.EnableSighashForkID) && shf.Has(sighash.ForkID) {
 		return errs.NewError(errs.ErrIllegalForkID, "fork id sighash set without flag")
-	}
-	if t.hasFlag(scriptflag.EnableSighashForkID) && !shf.Has(sighash.ForkID) {
-		return errs.NewError(errs.ErrIllegalForkID, "fork id sighash not set with flag")
 	}
 
 	return nil
